@@ -68,6 +68,19 @@ class World:
             groups.setdefault(m[0], []).append(c)
         return list(groups.items())
 
+    def is_abstract(self, cls):
+        """A class with an abstract method left unimplemented has no instances."""
+        names = set()
+        for c in mro(cls):
+            info = self.classes.get(c)
+            if info:
+                names |= set(info["methods"])
+        for nme in names:
+            m = self.find_method(cls, nme)
+            if m and any(getattr(d, "id", getattr(d, "attr", None)) == "abstractmethod" for d in m[1].decorator_list):
+                return True
+        return False
+
     def class_attr(self, cls, attr):
         """AST of a class-level constant `attr = <expr>` found along the MRO."""
         for c in mro(cls):
